@@ -273,7 +273,7 @@ def c06(ctx):
 
 # (W, S, MaxSyms, PSet)
 RANGE_QUICK = [(2, 4, 4, "{1,2}"), (2, 6, 3, "{1,2}"), (2, 6, 5, "{2}"), (3, 6, 2, "{1,2,3}"), (3, 6, 3, "{2}")]
-RANGE_THOROUGH = [(2, 4, 5, "{1,2}"), (2, 6, 4, "{1,2}"), (2, 6, 6, "{2}"), (2, 8, 3, "{1,2}"), (3, 6, 3, "{2,3}"), (3, 9, 2, "{2,3}"), (4, 8, 2, "{2,4}")]
+RANGE_THOROUGH = [(2, 4, 5, "{1,2}"), (2, 6, 4, "{1,2}"), (2, 6, 5, "{2}"), (2, 8, 3, "{1,2}"), (3, 6, 3, "{2,3}"), (3, 9, 2, "{2,3}"), (4, 8, 2, "{2,4}")]
 
 
 def range_hists(ctx, invs, mode, widths=None, spec_violation_is=None):
@@ -282,7 +282,7 @@ def range_hists(ctx, invs, mode, widths=None, spec_violation_is=None):
     widths = widths or (RANGE_THOROUGH if ctx.tier == "thorough" else RANGE_QUICK)
     for (w, s, ms, pset) in widths:
         cases = os.path.join(ctx.work, "range_%d_%d_%d.ndjson" % (w, s, ms))
-        sl = (s // w + 1) if ctx.tier == "thorough" else (s // w - 1)
+        sl = (s // w + 1) if (ctx.tier == "thorough" and s <= 4) else (s // w) if ctx.tier == "thorough" else (s // w - 1)
         st = ctx.tlc("MC_Range", {"W": w, "S": s, "MaxSyms": ms, "PSet": pset, "SuffixLen": sl}, invariants=invs + ["Emit"],
                      emit_to=cases, label="MC_Range_%d_%d" % (w, s))
         if st["spec_violation"]:
